@@ -1727,6 +1727,7 @@ def run(prog, tier, seed):
     adj = T(c13.adjacency_field, prog)
     results = results + adopt(T.results(
         T(c12.rule_scc, prog), T(c12.rule_scc6, prog),
+        T(c12.rule_scc9, prog),
         T(c13.rule_g12, prog, adj, _n=2) if adj else None,
         T(c13.rule_g3, prog, adj) if adj else None,
         T(c05.rule_rw3, prog), T(c11.rule_eq2, prog),
